@@ -462,11 +462,39 @@ def p_acceptor(g):
             probe_bind(c)
             u = g.opened(c, "u", srv, f); g.bind(c, u, Eip, port); P.do(c, "%s.local" % u)    # UDP: independent
             connect(c); np, _ = accept(c, a); P.do(c, "run"); live.append(np)
-        else:
+        elif x < 0.93:
             # several connects queue up on the acceptor, accepted one per accept
             for _ in range(rng.choice([2, 3])): connect(c)
             np, _ = accept(c, a); P.do(c, "run"); live.append(np)
             np, _ = accept(c, a); P.do(c, "run"); live.append(np)
+        elif x < 0.965:
+            # a connection queued on the acceptor must not follow it to another endpoint: close,
+            # re-open, bind elsewhere, accept -> only a connect dialled to the NEW endpoint is handed out
+            connect(c); P.do(c, "run")
+            P.do(c, "%s.%s" % (a, rng.choice(["close", "close0", "open " + f])))
+            if rng.random() < 0.7: P.do(c, "%s.open %s" % (a, f))
+            port2 = g.ports()
+            g.bind(c, a, wild(f) if usewild else sip, port2); P.do(c, "%s.listen" % a)
+            h = P.h(); peer2 = g.obj(c, "s", srv)
+            P.do(c, "%s.accept_ep %s h%d" % (a, peer2, h)); P.do("h%d" % h, "%s.local" % peer2)
+            if rng.random() < 0.6:
+                s2 = g.obj(c, "s", cli); h2 = P.h(); g.eph += 1
+                P.do(c, "%s.connect %s h%d" % (s2, ep(Eip, port2), h2))
+            P.do(c, "run")
+            # back to the original endpoint with a fresh acceptor (the pending accept's peer is left alone)
+            P.do(c, "%s.cancel" % a); P.do(c, "run")
+            P.do(c, "%s.close" % a)
+            a = acceptor(c)
+        else:
+            # an accept with nobody connecting is aborted when the acceptor goes away; the peer
+            # (closed by the accept call) stays closed
+            np, _ = accept(c, a)
+            w = rng.choice(["close", "close0", "destroy", "cancel"])
+            P.do(c, "%s.%s" % (a, w)); P.do(c, "run")
+            P.do(c, "%s.local" % np); P.do(c, "%s.is_open" % np)
+            if w != "cancel":
+                probe_bind(c)                                       # ok: released
+                a = acceptor(c)
 
 
 PIECES = [p_boundary_ports, p_ephemeral, p_same_ep, p_multihome, p_family, p_double_bind,
@@ -493,8 +521,8 @@ def directed(rng, sid):
 
 def generate(seed, tier, n_reg=None, n_dir=None):
     rng = random.Random(seed * 32452843 + 11)
-    n_reg = n_reg if n_reg is not None else (200 if tier == "quick" else 4000)
-    n_dir = n_dir if n_dir is not None else (440 if tier == "quick" else 9000)
+    n_reg = n_reg if n_reg is not None else (400 if tier == "quick" else 10000)
+    n_dir = n_dir if n_dir is not None else (1200 if tier == "quick" else 30000)
     out = [net_scenario(rng, "r%d" % i, "reg") for i in range(n_reg)]
     out += [directed(rng, "d%d" % i) for i in range(n_dir)]
     return out
